@@ -681,7 +681,7 @@ theorem read_print (l : Lit) (h : wfLit l = true) : readLit (printLit l) = some 
     default that looks like an integer has an Int literal form but is reported quoted — the same value after coercion). -/
 def DefaultParsesStatement : Prop :=
   ∀ (s : SchemaD) (ty : Ty) (dv : J) (l : Lit), litOfStrict s 64 ty dv = some l → wfLit l = true →
-    (∀ x, dv = .str x → Prims.baseIsKind s ty .enum = false → l = .str x.toList) →
+    (∀ x, dv = .str x → Prims.baseIsOneOf ty ["String", "ID"] = true → l = .str x.toList) →
     ∃ text, formatDefaultValue s true dv ty = some text ∧ readLit text = some l
 
 def witnessSchema : SchemaD :=
@@ -732,7 +732,7 @@ private theorem litOf_null (s : SchemaD) (ns : Bool) : ∀ (fuel : Nat) (ty : Ty
     other than TAB, LF, CR, which is the hypothesis `hs` (and the refutation above). -/
 theorem default_parses_partial (s : SchemaD) (ty : Ty) (dv : J) (l : Lit)
     (hl : litOfStrict s 64 ty dv = some l) (hwf : wfLit l = true)
-    (hs : ∀ x, dv = .str x → Prims.baseIsKind s ty .enum = false → l = .str x.toList ∧ x.toList.all topCharOk = true) :
+    (hs : ∀ x, dv = .str x → Prims.baseIsOneOf ty ["String", "ID"] = true → l = .str x.toList ∧ x.toList.all topCharOk = true) :
     ∃ text, formatDefaultValue s true dv ty = some text ∧ readLit text = some l := by
   by_cases hnone : Prims.isNone dv = true
   · have : dv = .null := by cases dv <;> simp_all [Prims.isNone]
@@ -740,7 +740,7 @@ theorem default_parses_partial (s : SchemaD) (ty : Ty) (dv : J) (l : Lit)
     have := litOf_null s false 64 ty l hl
     subst this
     exact ⟨['n', 'u', 'l', 'l'], by simp [formatDefaultValue, Prims.isNone], rfl⟩
-  by_cases hstr : (Prims.isStr dv && !(Prims.baseIsKind s ty Kind.enum)) = true
+  by_cases hstr : (Prims.isStr dv && Prims.baseIsOneOf ty ["String", "ID"]) = true
   · simp only [Bool.and_eq_true, Bool.not_eq_true'] at hstr
     obtain ⟨x, hx⟩ : ∃ x, dv = .str x := by cases dv <;> simp_all [Prims.isStr]
     subst hx
@@ -753,7 +753,7 @@ theorem default_parses_partial (s : SchemaD) (ty : Ty) (dv : J) (l : Lit)
       simp [this, skipIgnored]
   · refine ⟨printLit l, ?_, read_print l hwf⟩
     have hn : Prims.isNone dv = false := by simpa using hnone
-    have hs' : (Prims.isStr dv && !(Prims.baseIsKind s ty Kind.enum)) = false := by simpa using hstr
+    have hs' : (Prims.isStr dv && Prims.baseIsOneOf ty ["String", "ID"]) = false := by simpa using hstr
     simp only [formatDefaultValue, Bool.not_true, Bool.false_eq_true, ↓reduceIte, hn, hs', Prims.printAstOfValueStrict, hl, Option.map_some]
 
 /-- I11: in the literal form introspection reports, a string of a CUSTOM scalar is a string literal whatever it
